@@ -827,13 +827,15 @@ def same_dump(a, b, ignore_iters=False):
 # ------------------------------------------------------------------ C15
 
 
-def closed_prefix(cx):
-    """DESIGN §6.4"""
+def closed_prefix(cx, config=True):
+    """DESIGN §6.4; config=False leaves out the lexer's own end configuration (for generated programs,
+    which are statement-complete by construction) and keeps the textual part: no unterminated construct,
+    last token a consumed ';' or a closed statement-level comment"""
     c = cx.c
     if c.outcome != "ok" or not c.end:
         return False
     e = c.end
-    if e["modes"] != "[Default]" or e["mnl"] != 0 or e["ps"] != "0" or e["cp"] != 0:
+    if config and (e["modes"] != "[Default]" or e["mnl"] != 0 or e["ps"] != "0" or e["cp"] != 0):
         return False
     N = cx.t.tt_name
     for er in c.errs:
